@@ -2,7 +2,7 @@
 # setup_cmd: builds /verif/.venv (overlay on /venv) from the offline wheelhouse; idempotent.
 set -e
 cd "$(dirname "$0")"
-V=/verif/.venv
+V="$(pwd)/.venv"
 if [ -x "$V/bin/crosshair" ] && "$V/bin/python" -c "import crosshair, z3, lark, jinja2" 2>/dev/null; then
   exit 0
 fi
